@@ -26,9 +26,18 @@ Inductive yobs :=
 | YPairs (keys vals : list Z)                          (* visited pairs, sorted by key *)
 | YPanic.
 
+(* operation sequences with their observations, as monomorphic lists (no implicit arguments to infer, so
+   that coqc elaborates tens of thousands of generated cases quickly) *)
+Inductive sseq := SNil | SC (o : sop) (b : sobs) (t : sseq).
+Inductive yseq := YNil | YC (o : yop) (b : yobs) (t : yseq).
+Fixpoint slist (s : sseq) : list (sop * sobs) := match s with SNil => [] | SC o b t => (o, b) :: slist t end.
+Fixpoint ylist (s : yseq) : list (yop * yobs) := match s with YNil => [] | YC o b t => (o, b) :: ylist t end.
+
 Inductive case :=
-| CSafe (aux_ok : bool) (ops : list (sop * sobs))
-| CSync (aux_ok : bool) (nilable : bool) (ops : list (yop * yobs)).
+| CSafeL (aux_ok : bool) (ops : list (sop * sobs))
+| CSyncL (aux_ok : bool) (nilable : bool) (ops : list (yop * yobs))
+| CSafe (aux_ok : bool) (ops : sseq)
+| CSync (aux_ok : bool) (nilable : bool) (ops : yseq).
 
 (* monomorphic constructors for the generated cases (no implicit arguments to infer: cases.v elaborates fast) *)
 Definition aContains (k : Z) : sop := OContains k.
@@ -190,12 +199,13 @@ Fixpoint yrun (nilable : bool) (f : fref) (univ : list Z) (m : list (Z * option 
   end.
 
 Definition verdict (c : case) : nat :=
-  match c with
-  | CSafe aux ops =>
+  match match c with CSafe a s => CSafeL a (slist s) | CSync a n s => CSyncL a n (ylist s) | c' => c' end with
+  | CSafe _ _ | CSync _ _ _ => 0%nat
+  | CSafeL aux ops =>
       let univ := flat_map (fun ob => skeys_of (fst ob)) ops in
       let (mon, mod_) := srun (fun _ => None) univ [] ops in
       if negb (aux && mon) then 1%nat else if mod_ then 0%nat else 2%nat
-  | CSync aux nilable ops =>
+  | CSyncL aux nilable ops =>
       let univ := flat_map (fun ob => ykeys_of (fst ob)) ops in
       let (mon, mod_) := yrun nilable (fun _ => None) univ [] ops in
       if negb (aux && mon) then 1%nat else if mod_ then 0%nat else 2%nat
@@ -205,16 +215,16 @@ Definition mismatches (cs : list case) : list (nat * nat) := collect verdict 0 c
 
 (* sanity: the Findings witnesses are rejected / accepted as expected *)
 Example corr_f8_panic_rejected :
-  verdict (CSync true true [(OStore 1 0, YUnit); (OLoad 1, YPanic)]) = 1%nat.
+  verdict (CSyncL true true [(OStore 1 0, YUnit); (OLoad 1, YPanic)]) = 1%nat.
 Proof. reflexivity. Qed.
 Example corr_f8_fixed_accepted :
-  verdict (CSync true true [(OStore 1 0, YUnit); (OLoad 1, YValOk 0 true); (OLoad 2, YValOk 0 false)]) = 0%nat.
+  verdict (CSyncL true true [(OStore 1 0, YUnit); (OLoad 1, YValOk 0 true); (OLoad 2, YValOk 0 false)]) = 0%nat.
 Proof. reflexivity. Qed.
 Example corr_safe_accepted :
-  verdict (CSafe true [(OGetOrAdd 1 5, SVal 5); (OGetOrAdd 1 6, SVal 5); (OSet 2 7, SUnit); (OKeys, SKeys [1; 2] true);
+  verdict (CSafeL true [(OGetOrAdd 1 5, SVal 5); (OGetOrAdd 1 6, SVal 5); (OSet 2 7, SUnit); (OKeys, SKeys [1; 2] true);
                        (OValues, SVals [5; 7] true); (OCopy, SMap [1; 2] [5; 7] true); (SafeMap.ODelete 1, SUnit);
                        (OGet 1, SVal 0); (OLen, SInt 1); (OTranslate (fun v => v * 2), SMap [2] [14] true)]) = 0%nat.
 Proof. reflexivity. Qed.
 Example corr_safe_rejected :
-  verdict (CSafe true [(OSet 1 5, SUnit); (SafeMap.ODelete 1, SUnit); (OGet 1, SVal 5)]) = 1%nat.
+  verdict (CSafeL true [(OSet 1 5, SUnit); (SafeMap.ODelete 1, SUnit); (OGet 1, SVal 5)]) = 1%nat.
 Proof. reflexivity. Qed.
